@@ -126,7 +126,9 @@ def apply_edit(pkg: M.Package, rng: Rng, kind: str, only=None):
             for i, (n, t, st) in enumerate(p.steps):
                 if isinstance(t, Prim) and t.name in WIDEN:
                     cands.append((p, i, Prim(WIDEN[t.name])))
-                elif isinstance(t, Vec) and isinstance(t.inner, Prim) and t.inner.name in WIDEN:
+                elif isinstance(t, Vec) and isinstance(t.inner, Prim) and t.inner.name in WIDEN and not st:
+                    # (not for a stream of vectors: the generated C++ conversion nests two loops over the same variable
+                    #  names and does not compile - C08, not claimed)
                     cands.append((p, i, Vec(Prim(WIDEN[t.inner.name]), t.length)))
                 elif isinstance(t, Opt) and isinstance(t.inner, Prim) and t.inner.name in WIDEN:
                     cands.append((p, i, Opt(Prim(WIDEN[t.inner.name]))))
@@ -148,7 +150,8 @@ def apply_edit(pkg: M.Package, rng: Rng, kind: str, only=None):
         # T? -> T (the inverse of "making a field optional"): a null of the previous version becomes the zero value
         cands = [("f", r, i) for r in recs for i, (_, t) in enumerate(r.fields) if isinstance(t, Opt) and isinstance(t.inner, Prim)]
         if only is None:
-            cands += [("s", p, i) for p in _protocols(pkg) for i, (_, t, _) in enumerate(p.steps) if isinstance(t, Opt) and isinstance(t.inner, Prim)]
+            # (yardl does not accept T? -> T for the items of a stream)
+            cands += [("s", p, i) for p in _protocols(pkg) for i, (_, t, st) in enumerate(p.steps) if isinstance(t, Opt) and isinstance(t.inner, Prim) and not st]
         if not cands:
             return None
         what, d, i = rng.choice(cands)
@@ -209,6 +212,11 @@ def apply_edit(pkg: M.Package, rng: Rng, kind: str, only=None):
         steps = []
         for _ in range(rng.randint(1, 3)):
             steps.append((_fresh_member([s for s, _, _ in steps], rng), Prim(rng.choice(SIMPLE_PRIMS)), rng.chance(0.5)))
+        plain = [r for r in _records(pkg) if not r.params]
+        if plain:
+            # steps that carry records, so that later record edits reach the new protocol too
+            steps.append((_fresh_member([s for s, _, _ in steps], rng), M.Named(rng.choice(plain).name), False))
+            steps.append((_fresh_member([s for s, _, _ in steps], rng), M.Named(rng.choice(plain).name), True))
         pkg.files[fn].append(Protocol(name, steps))
         return "add_protocol %s" % name
     if kind == "change_enum":
@@ -269,7 +277,7 @@ def evolve(pkg: M.Package, rng: Rng, n: int, kinds) -> tuple:
 RECORD_EDITS = ["add_optional_field", "remove_optional_field", "reorder_fields", "add_field", "remove_field", "widen_field", "make_optional", "widen_vector_field", "make_required"]
 
 
-def with_versions(pkg: M.Package, rng: Rng, n_versions: int, partial: bool, must_edit=()) -> M.Package:
+def with_versions(pkg: M.Package, rng: Rng, n_versions: int, partial: bool, must_edit=(), order="oldest_first", p_new_protocol=0.0) -> M.Package:
     """Treat pkg as the oldest version; evolve it n_versions times; the newest package lists all
     its predecessors under `versions:`.  Returns the newest package.
     must_edit: names of records that each get at least one record edit in every evolution step."""
@@ -279,6 +287,12 @@ def with_versions(pkg: M.Package, rng: Rng, n_versions: int, partial: bool, must
     log = []
     for i in range(n_versions):
         cur, l = evolve(cur, rng.fork("evolve", i), rng.randint(1, 4), kinds)
+        r3 = rng.fork("newproto", i)
+        if r3.chance(p_new_protocol):
+            # a protocol that the older versions do not have at all (and that later steps may go on to change)
+            d = apply_edit(cur, r3, "add_protocol")
+            if d:
+                l.append(d)
         r2 = rng.fork("must", i)
         for name in must_edit:
             for _ in range(8):
@@ -297,6 +311,11 @@ def with_versions(pkg: M.Package, rng: Rng, n_versions: int, partial: bool, must
         old.versions = []
         old.targets = {}
         newest.versions.append(("v%d" % i, old))
+    # the order in which the manifest lists the versions is an input of its own
+    if order == "newest_first":
+        newest.versions.reverse()
+    elif order == "shuffled":
+        rng.fork("order").shuffle(newest.versions)
     return newest
 
 
